@@ -172,7 +172,7 @@ def run(ctx: core.Ctx):
     ctx.expect_canary(ctx.tlc("MC_Settings", write_cfg("MC_Settings_canary", base.format(nk=2, d=3, m=5, e="FALSE", ra="TRUE")
                                                        + "PROPERTY PropExitRestores\nVIEW View\nCHECK_DEADLOCK FALSE\n"), workers=4), "RestoreAll")
     g = ctx.tlc("MC_Settings", write_cfg("Gen_Settings", base.format(nk=2, d=4, m=4 if q else 5, e="TRUE", ra="FALSE")
-                                         + "INVARIANT EmitInv\nCHECK_DEADLOCK FALSE\n"), workers=1, timeout=3000)
+                                         + "INVARIANT EmitInv\nCHECK_DEADLOCK FALSE\n"), workers=16, timeout=3000)
     behs = [(b, 2) for b in g.emitted]
     n_exh = len(behs)
     if not q:
@@ -264,7 +264,7 @@ def check_traces(ctx, items, what):
         return
     path = ctx.work / f"settings-{what}.json"
     path.write_text(json.dumps([t for t, _ in items]))
-    r = ctx.tlc("Trace_Settings", workers=1, env={"VERIF_TRACES": str(path)}, timeout=1800)
+    r = ctx.tlc("Trace_Settings", workers=8, env={"VERIF_TRACES": str(path)}, timeout=1800)
     by = {t["id"]: (t, ev) for t, ev in items}
     seen = set()
     for rep in r.emitted:
